@@ -1,7 +1,6 @@
 //! Shims: the std / crossbeam items the pools use, re-implemented on loom primitives.
 //! `vchan` models the crossbeam-channel *specification* the pools rely on: bounded FIFO, `try_send` -> Full /
-//! Disconnected, `recv_timeout` (the Timeout answer before shutdown is a stutter step and is not explored, see
-//! DESIGN.md), `try_recv`, `len`, messages still delivered after the senders are gone, rendezvous for capacity 0.
+//! Disconnected, `recv_timeout` (its Timeout answer is an explored environment answer with a per-channel budget, see DESIGN.md), `try_recv`, `len`, messages still delivered after the senders are gone, rendezvous for capacity 0.
 pub mod vstd {
     pub mod sync {
         pub use loom::sync::Mutex;
@@ -88,7 +87,12 @@ pub mod vchan {
         senders: usize,
         receivers: usize,
         waiting: usize,
+        /// how many more times an empty-queue `recv_timeout` answers Timeout before it blocks
+        timeouts_left: usize,
     }
+    /// per-configuration budget of Timeout answers per channel (set before the model runs; plain std atomic, read once per
+    /// channel creation, so it is the same in every explored execution)
+    pub static TIMEOUT_BUDGET: std::sync::atomic::AtomicUsize = std::sync::atomic::AtomicUsize::new(0);
     struct Inner<T> {
         st: Mutex<St<T>>,
         cv: Condvar,
@@ -112,7 +116,7 @@ pub mod vchan {
         Disconnected,
     }
     pub fn bounded<T>(cap: usize) -> (Sender<T>, Receiver<T>) {
-        let i = Arc::new(Inner { st: Mutex::new(St { q: VecDeque::new(), senders: 1, receivers: 1, waiting: 0 }), cv: Condvar::new(), cap });
+        let i = Arc::new(Inner { st: Mutex::new(St { q: VecDeque::new(), senders: 1, receivers: 1, waiting: 0, timeouts_left: TIMEOUT_BUDGET.load(std::sync::atomic::Ordering::Relaxed) }), cv: Condvar::new(), cap });
         (Sender(i.clone()), Receiver(i))
     }
     impl<T> Sender<T> {
@@ -170,6 +174,12 @@ pub mod vchan {
                 }
                 if g.senders == 0 {
                     return Err(RecvTimeoutError::Disconnected);
+                }
+                // the environment answer "nothing arrived in time": taken the first `budget` times this worker finds its
+                // queue empty; which moment of the trace that is varies over the explored schedules
+                if g.timeouts_left > 0 {
+                    g.timeouts_left -= 1;
+                    return Err(RecvTimeoutError::Timeout);
                 }
                 g.waiting += 1;
                 g = self.0.cv.wait(g).unwrap();
